@@ -105,7 +105,7 @@ func Check(res *Result) []Violation {
 				stuck = stuck || j.Stuck
 			}
 			for _, e := range res.Events {
-				if e.S == si && e.Kind == EvCancel {
+				if e.S == si && (e.Kind == EvCancel || e.Kind == EvWaitCancel) {
 					cancelled = true
 				}
 			}
@@ -214,10 +214,16 @@ func Check(res *Result) []Violation {
 		attributable := func(e error) (job int, isCtx bool) {
 			var je *jobErr
 			if errors.As(e, &je) && je.s == si {
+				if je.j < 0 {
+					return -3, false // the sentinel every failing job of this scheduler returns
+				}
 				return je.j, false
 			}
 			if sr.ctxErrAtRet != nil && errors.Is(e, sr.ctxErrAtRet) {
 				return -1, true
+			}
+			if cancelSeq != 0 && (e == context.Canceled || e == context.DeadlineExceeded) {
+				return -1, true // the jobs' context was cancelled (Wait may have been given another one)
 			}
 			if errors.Is(e, context.Canceled) {
 				// the error of a job's own context, for a job that was skipped because of it
@@ -246,6 +252,16 @@ func Check(res *Result) []Violation {
 				job, isCtx := attributable(err)
 				switch {
 				case isCtx:
+				case job == -3:
+					any := false
+					for j := 0; j < nj; j++ {
+						if sd.Jobs[j].Out == OutErr && ji[j].end != 0 {
+							any = true
+						}
+					}
+					if !any {
+						add("C07", "error-of-job-that-did-not-fail", fmt.Sprintf("s%d: Wait returned the jobs' error value, but no job failed in this run", si))
+					}
 				case job >= 0:
 					if ji[job].end == 0 || sd.Jobs[job].Out != OutErr {
 						add("C07", "error-of-job-that-did-not-fail", fmt.Sprintf("s%d: Wait returned the error of job %d, which did not fail in this run", si, job))
@@ -276,12 +292,14 @@ func Check(res *Result) []Violation {
 				// Wait left through the context: exactly the context error.
 			} else {
 				seen := map[int]int{}
-				ctxEntries, goexitEntries := 0, 0
+				ctxEntries, goexitEntries, sharedEntries := 0, 0, 0
 				for _, e := range errsList {
 					job, isCtx := attributable(e)
 					switch {
 					case isCtx:
 						ctxEntries++
+					case job == -3:
+						sharedEntries++
 					case job >= 0:
 						seen[job]++
 					case isGoexitErr(e):
@@ -290,7 +308,7 @@ func Check(res *Result) []Violation {
 						add("C08", "foreign-entry", fmt.Sprintf("s%d: returned error contains %q, which is no job's error and not the context's (internal sentinel?)", si, e))
 					}
 				}
-				notStarted, goexits := 0, 0
+				notStarted, goexits, sharedWant := 0, 0, 0
 				for j := 0; j < nj; j++ {
 					if ji[j].start == 0 {
 						notStarted++
@@ -302,9 +320,16 @@ func Check(res *Result) []Violation {
 					if ji[j].end != 0 && sd.Jobs[j].Out == OutErr {
 						want = 1
 					}
+					if sd.SharedErr {
+						sharedWant += want
+						continue
+					}
 					if seen[j] != want {
 						add("C08", "entry-count", fmt.Sprintf("s%d: job %d failed=%v but its error appears %d times in the returned error", si, j, want == 1, seen[j]))
 					}
+				}
+				if sd.SharedErr && sharedEntries != sharedWant {
+					add("C08", "entry-count", fmt.Sprintf("s%d: %d jobs failed, all with the same error value, but that value appears %d times in the returned error", si, sharedWant, sharedEntries))
 				}
 				if goexitEntries != goexits {
 					add("C08", "entry-count", fmt.Sprintf("s%d: %d jobs exited their goroutine but %d such entries are reported", si, goexits, goexitEntries))
@@ -322,7 +347,7 @@ func Check(res *Result) []Violation {
 					add("C08", "ctx-entry-count", fmt.Sprintf("s%d: %d context errors for %d skipped jobs", si, ctxEntries, notStarted))
 				}
 			}
-			if cancelSeq == 0 && !dynamicCtx {
+			if cancelSeq == 0 && !dynamicCtx && sr.ctxErrAtRet == nil {
 				for j := 0; j < nj; j++ {
 					if dead(j) {
 						continue // judged by C09 below
